@@ -109,4 +109,17 @@ Section Block.
          else it_coarse_ops P 1.
   Definition pfasst_iteration (P L : nat) (nsw : nat -> nat) (jacobi : bool) : list op :=
     it_check_ops P ++ iteration_body P L nsw jacobi.
+
+  (* ---------------------------------------------------------------- the predictors of controller_nonMPI.predict *)
+  Inductive predictor := PredNone | PredFineOnly | PredBurnIn.
+  (* pfasst_burnin: restrict every step down to the coarsest level; q = 0..P-1: (steps p >= q: coarse sweep, send), (steps p > q: recv);
+     per step: prolong up to the finest level, send, recv; then one fine sweep on every step *)
+  Definition burnin_ops (P L : nat) : list op :=
+    for_steps P (fun p => map (fun l => Restrict p l) (seq 0 (L - 1)))
+    ++ flat_map (fun q => flat_map (fun p => [Sweep p (L - 1); Send p (L - 1)]) (seq q (P - q))
+                          ++ flat_map (fun p => [Recv p (L - 1)]) (seq (S q) (P - S q))) (seq 0 P)
+    ++ for_steps P (fun p => map (fun l => Prolong p (l - 1)) (rev (seq 1 (L - 1))) ++ [Send p 0; Recv p 0])
+    ++ sweep_all P 0.
+  Definition predict_ops (P L : nat) (pt : predictor) : list op :=
+    match pt with PredNone => [] | PredFineOnly => sweep_all P 0 | PredBurnIn => burnin_ops P L end.
 End Block.
